@@ -179,6 +179,21 @@ pub fn gen_scope(t: &mut Tape) -> ScopeCase {
             }
         }
     }
+    // v2: a long chain of constants each defined through the one declared AFTER it, used at the very start:
+    // "used before they are declared with the same result as after", for more links than the resolver has passes
+    let mut items = items;
+    if crate::engine::gen_version() >= 2 && fault.is_none() && t.chance(1, 8) {
+        let len = t.urange(6, 16);
+        let mut chain: Vec<Item> = Vec::new();
+        for k in 0..len {
+            let e = if k + 1 < len { E::Bin(BinOp::Add, Box::new(E::Var(format!("zc{}", k + 1))), Box::new(lit_of(1))) } else { lit_of(t.draw(5) as u64) };
+            chain.push(Item::Const { dots: 0, name: format!("zc{}", k), e, noemit: false });
+        }
+        // the chain stands at the end of the file (a global constant resets the scope: nothing follows it);
+        // its head is read by the first item
+        items.insert(0, Item::Data { width: Some(32), elems: vec![E::Var("zc0".into())] });
+        items.extend(chain);
+    }
     let prog = Program { isa: Default::default(), items };
     // metamorphic variant: move the global address-free constants (k*) to the end or the start.
     // They reset the scope where they stand, so only those standing right before a global declaration
